@@ -480,7 +480,9 @@ impl World {
                     }
                 }
                 match all.get(k) {
-                    Some(v2) if v2 != v => self.fail("C11", format!("item {} has different bytes on different replicas", k)),
+                    // (blocks and packs are content-addressed; a foreign item - a lock file, a note - is not, and
+                    // two replicas may hold different ones under one name)
+                    Some(v2) if v2 != v && (k.ends_with(".delta") || k.ends_with(".pack")) => self.fail("C11", format!("item {} has different bytes on different replicas", k)),
                     _ => {
                         all.insert(k.clone(), v.clone());
                     }
